@@ -79,6 +79,7 @@ func runC07(c *Ctx) {
 	c.c07Listed()
 	c.c07Handles()
 	c.c07DotsInNames()
+	c.c07SniffingFailureIsNotAnExtractionFailure()
 }
 
 func (c *Ctx) c07Guard() {
@@ -1478,4 +1479,88 @@ func c07IsCreatedHandle(v ssa.Value, f *ssa.Function, depth int) bool {
 		}
 	}
 	return false
+}
+
+// c07SniffingFailureIsNotAnExtractionFailure (V11): "the zip→unzip round trip reproduces the tree … for every legal content".
+// In recursive mode every extracted file with an archive-like name is sniffed (IsZipWithContext reads its first bytes). A
+// file that cannot be sniffed — an empty one: 'no bytes were read' — is simply not an archive. Only the end of the context
+// met while sniffing is the extraction's business (F63). Decided: in (*VFS).unzip a return that hands back the error of
+// IsZipWithContext lies on the true side of commonerrors.Any(thatError, kinds…) whose kinds are ErrCancelled / ErrTimeout only.
+func (c *Ctx) c07SniffingFailureIsNotAnExtractionFailure() {
+	c.rule("V11", "in the extraction loop the error of sniffing an extracted file (IsZipWithContext) ends the extraction only where it was classified as 'cancelled' / 'timeout': a file that cannot be sniffed (an empty file named x.zip) is not an archive, not a failure", 1)
+	f := c.fnOpt(fsPkgRel, "(*VFS).unzip")
+	if f == nil {
+		return
+	}
+	c.FuncsSeen[fname(f)] = true
+	n := 0
+	allInstrs(f, func(in ssa.Instruction) {
+		cl, ok := in.(*ssa.Call)
+		if !ok {
+			return
+		}
+		g := staticCallee(&cl.Call)
+		if g == nil || !strings.HasPrefix(g.Name(), "IsZip") {
+			return
+		}
+		es := errResultsOf(cl)
+		if len(es) == 0 {
+			return
+		}
+		e := es[0]
+		n++
+		bad := ""
+		k := f.Signature.Results().Len() - 1
+		allInstrs(f, func(r ssa.Instruction) {
+			// the error leaves through a return, or (the function has deferred calls: results live in memory) through a store
+			// into a result variable
+			var out ssa.Value
+			switch x := r.(type) {
+			case *ssa.Return:
+				if len(x.Results) > k {
+					out = x.Results[k]
+				}
+			case *ssa.Store:
+				if _, isAlloc := x.Addr.(*ssa.Alloc); isAlloc && isErrorType(x.Val.Type()) {
+					out = x.Val
+				}
+			}
+			if out == nil {
+				return
+			}
+			carries := out == e
+			for _, l := range sources(out, deriveOpts{through: func(string) bool { return true }}) {
+				if l == e || l == ssa.Value(cl) {
+					carries = true
+				}
+			}
+			if !carries {
+				return
+			}
+			ctxOnly := onBoolSide(r, true, func(v ssa.Value) bool {
+				t, ok := v.(*ssa.Call)
+				if !ok || !strings.HasSuffix(calleeFull(&t.Call), "commonerrors.Any") || len(t.Call.Args) < 2 || !sameValue(t.Call.Args[0], e) {
+					return false
+				}
+				els := variadicElems(t.Call.Args[1])
+				if len(els) == 0 {
+					return false
+				}
+				for _, a := range els {
+					if !isGlobalLoad(a, "ErrCancelled") && !isGlobalLoad(a, "ErrTimeout") {
+						return false
+					}
+				}
+				return true
+			})
+			if !ctxOnly {
+				bad = c.ipos(r)
+			}
+		})
+		c.check(bad == "", "V11", fname(f)+"/sniffing:"+g.Name(), c.ipos(cl), "the sniffing error is returned only where it says 'cancelled' / 'timeout'",
+			"the return at "+bad+" hands back whatever error the sniffing of the extracted file produced: an empty file with an archive-like name ('no bytes were read') aborts the extraction of a perfectly good archive — the entries after it are never extracted and the round trip of a tree with such a file fails")
+	})
+	if n == 0 {
+		c.info("V11", fname(f)+"/no-sniffing", "-", "the extraction loop does not sniff extracted files")
+	}
 }
